@@ -101,7 +101,7 @@ class WhereFilter(_FilterFilter):
         if value is not None and not is_undefined(value):
             return [itm for itm in left if _getitem(itm, key) == value]
 
-        return [itm for itm in left if _getitem(itm, key) not in (False, None)]
+        return [itm for itm in left if is_truthy(_getitem(itm, key))]
 
 
 class RejectFilter(_FilterFilter):
@@ -128,7 +128,7 @@ class RejectFilter(_FilterFilter):
         if value is not None and not is_undefined(value):
             return [itm for itm in left if _getitem(itm, key) != value]
 
-        return [itm for itm in left if _getitem(itm, key) in (False, None)]
+        return [itm for itm in left if not is_truthy(_getitem(itm, key))]
 
 
 class CompactFilter:
